@@ -704,16 +704,29 @@ class StmtMixin:
         k = fresh('k', z3.IntSort())
         st.locals['_k'] = st.locals['_k%d' % idx] = Sc(k, INT)
         st.assume(z3.And(0 <= k, k <= n))
+        for st_v in self.expand_opt(st):
+            yield from self.run_for_head(node, spec, idx, label, lst, getter, src, n, k, st_v, frame)
+
+    def expand_opt(self, st):
+        """states for the two cases of every Optional[container] local that is None before the loop (see havoc_loop)"""
+        pend = getattr(st, '_opt_none', [])
+        st._opt_none = []
+        out = [st]
+        for name, t in pend:
+            nxt = []
+            for s in out:
+                s_none = s.fork()
+                s_none.locals[name] = NoneV()
+                s_some = s.fork()
+                s_some.locals[name] = self.fresh_val(name, t, s_some)
+                nxt.extend([s_none, s_some])
+            out = nxt
+        return out
+
+    def run_for_head(self, node, spec, idx, label, lst, getter, src, n, k, st, frame):
         self.assume_invs(spec, st, frame)
         src_has0 = self.c_has_arr(src, st) if (src is not None and not src.frozen) else None
-        # exit
-        s_exit = st.fork()
-        s_exit.assume(k == n)
-        if node.orelse:
-            yield from self.exec_block(node.orelse, s_exit, frame)
-        else:
-            yield Outcome('normal', s_exit)
-        # body
+        # body (run first: the exit state needs to know which locals an iteration leaves bound)
         s_body = st.fork()
         s_body.assume(k < n)
         if getter:
@@ -721,6 +734,8 @@ class StmtMixin:
         else:
             item = self.wrap_elem(z3.Select(self.l_arr(lst, s_body), k), lst.t.args[0], s_body)
         dec0 = self.eval_decreases(spec, s_body, frame)
+        leaked = {}
+        pending = []
         for s in self.assign(node.target, item, s_body, frame, node):
             frame.in_loop = getattr(frame, 'in_loop', 0) + 1
             try:
@@ -729,6 +744,9 @@ class StmtMixin:
                 frame.in_loop -= 1
             for o in body_outs:
                 if o.kind in ('normal', 'continue'):
+                    for nm, v in o.st.locals.items():
+                        if nm not in st.locals and not nm.startswith('_') and isinstance(v, (Sc, RefV)):
+                            leaked.setdefault(nm, v)
                     o.st.locals['_k'] = o.st.locals['_k%d' % idx] = Sc(k + 1, INT)
                     o.st.locals['_it'] = o.st.locals['_it%d' % idx] = lst
                     if src_has0 is not None:
@@ -736,9 +754,32 @@ class StmtMixin:
                                     'container changed size during iteration')
                     self.check_invs(spec, o.st, frame, node, label + ':pres')
                 elif o.kind == 'break':
-                    yield Outcome('normal', o.st)
+                    pending.append(Outcome('normal', o.st))
                 else:
-                    yield o
+                    pending.append(o)
+        # exit
+        s_exit = st.fork()
+        s_exit.assume(k == n)
+        # Python leaves the loop variable(s) and everything first bound inside the body bound after the loop (to the
+        # values of the last iteration that ran).  They are given arbitrary values of the type seen in the body, except the
+        # simple loop target, which is the last element.  (If the loop never ran they are unbound in CPython - reading
+        # them then raises; that case is over-approximated by the arbitrary value and noted as an assumption.)
+        for nm, v in leaked.items():
+            if nm in s_exit.locals:
+                continue
+            if isinstance(node.target, ast.Name) and node.target.id == nm and getter is None:
+                last = self.wrap_elem(z3.Select(self.l_arr(lst, s_exit), n - 1), lst.t.args[0], s_exit)
+                if isinstance(last, (Sc, RefV)):
+                    s_exit.locals[nm] = last
+                    continue
+            s_exit.locals[nm] = self.fresh_val('leak_' + nm, v.t, s_exit, nullable=getattr(v, 'nullable', False))
+        if leaked:
+            s_exit._leaked = set(getattr(s_exit, '_leaked', set())) | set(leaked)
+        if node.orelse:
+            yield from self.exec_block(node.orelse, s_exit, frame)
+        else:
+            yield Outcome('normal', s_exit)
+        yield from pending
 
     def unroll(self, node, items, st, frame):
         live = [st]
@@ -768,6 +809,10 @@ class StmtMixin:
         label = 'loop%d' % idx
         self.check_invs(spec, st, frame, node, label + ':init')
         self.havoc_loop(node, spec, st, frame)
+        for st_v in self.expand_opt(st):
+            yield from self.while_head(node, spec, idx, label, st_v, frame)
+
+    def while_head(self, node, spec, idx, label, st, frame):
         self.assume_invs(spec, st, frame)
         for st1, c in self.ev(node.test, st, frame):
             t = self.truth(c, st1)
@@ -881,6 +926,10 @@ class StmtMixin:
                             continue
                         raise VCError('local %s is None at the head of the loop at line %d and assigned inside it: '
                                       'needs a type annotation' % (name, node.lineno))
+                    if t.is_container:
+                        # Optional[container]: either still None or some container - both cases are explored
+                        st._opt_none = getattr(st, '_opt_none', []) + [(name, t)]
+                        continue
                     st.locals[name] = self.fresh_val(name, t, st, nullable=True)
                     continue
                 st.locals[name] = self.fresh_val(name, t, st, nullable=True if isinstance(v, RefV) else False)
